@@ -701,6 +701,14 @@ def check(ctx):
     check_descriptions_keep_the_field(ctx)
     from ..model import check_no_class_level_accumulator
     check_no_class_level_accumulator(ctx, 'R8-bits-run', ['Bits'], clause='a')
+    # Round 8: the per-field calls of a class with bit fields are the generated code of *this*
+    # declaration: what is installed was generated now or carries this declaration's cookie (C15-V)
+    try:
+        from ..cache import CacheModel
+        from .c16 import check_protocol
+        check_protocol(ctx, CacheModel(ctx.repo, max_paths=max(ctx.max_paths, 65536)), 'V')
+    except Undecided as e:
+        ctx.undecided('R10-validate-before-install', ('bisturi/codegen.py', 'CodeGenerator.generate_code'), 'generate_code', str(e), 0)
     ci = repo.cls('Bits')
     _find_run_masks(ci)
     for m in ('_compile', 'init', 'unpack', 'pack'):
